@@ -983,7 +983,12 @@ func mutate(r *hx.Rand, g *hx.Gen, d []byte) []byte {
 			return append(d, r.Bytes(r.Range(1, 8))...)
 		}
 		p := hx.Pick(r, ps)
-		m := r.Intn(16)
+		m := r.Intn(20)
+		if m >= 16 {
+			g.Stat("mut.poke")
+			d = pokeFields(r, g, d)
+			continue
+		}
 		g.Stat(fmt.Sprintf("mut.%02d", m))
 		switch m {
 		case 0, 1: // bit flip near the start of a packet body (version, algorithm, lengths, MPI headers)
@@ -1332,14 +1337,177 @@ func ownMessages(r *hx.Rand) [][]byte {
 			w.Close()
 			symMsgs = append(symMsgs, buf.Bytes())
 		}
+		// maximal-length file names through the real writers (FileHints): SymmetricallyEncrypt, Sign, SerializeLiteral
+		signer := freshPriv()[0]
+		for i, n := range []int{252, 253, 254, 255, 256, 300} {
+			name := strings.Repeat("n", n)
+			var buf bytes.Buffer
+			cfg := &packet.Config{Rand: rr, DefaultCompressionAlgo: packet.CompressionAlgo(i % 3), Time: func() time.Time { return time.Unix(1500000000, 0) }}
+			if w, err := openpgp.SymmetricallyEncrypt(&buf, []byte("password"), &openpgp.FileHints{FileName: name}, cfg); err == nil {
+				w.Write(rr.Bytes(20))
+				w.Close()
+				symMsgs = append(symMsgs, append([]byte(nil), buf.Bytes()...))
+			}
+			buf.Reset()
+			if w, err := openpgp.Sign(&buf, signer, &openpgp.FileHints{FileName: name, IsBinary: true}, cfg); err == nil {
+				w.Write(rr.Bytes(20))
+				w.Close()
+				symMsgs = append(symMsgs, append([]byte(nil), buf.Bytes()...))
+			}
+			buf.Reset()
+			if w, err := packet.SerializeLiteral(nopCloser{&buf}, true, name, 0); err == nil {
+				w.Write(rr.Bytes(5))
+				w.Close()
+				symMsgs = append(symMsgs, append([]byte(nil), buf.Bytes()...))
+			}
+		}
 	})
 	return symMsgs
+}
+
+type nopCloser struct{ io.Writer }
+
+func (nopCloser) Close() error { return nil }
+
+// ---- "field poker": length / count / version / algorithm octets INSIDE packet bodies set to extreme values,
+// with the body re-serialised so that the announced field is present, just too short, or absent
+
+var ext1 = []int{0, 1, 127, 128, 252, 253, 254, 255}
+var ext2 = []int{0, 1, 7, 8, 9, 0xff, 0x100, 0xffff}
+var ext4 = []int{0, 1, 0xffff, 0x10000, 0xffffffff}
+
+type field struct {
+	off, width int
+	name       string
+}
+
+// count / selector fields by packet tag (offsets into the body; negative tables are computed below)
+var fieldTable = map[int][]field{
+	1:  {{0, 1, "pkesk.version"}, {9, 1, "pkesk.algo"}, {10, 2, "pkesk.mpi1-bits"}},
+	2:  {{0, 1, "sig.version"}, {1, 1, "sig.type"}, {2, 1, "sig.pkalgo"}, {3, 1, "sig.hash"}, {4, 2, "sig.hashed-len"}},
+	3:  {{0, 1, "skesk.version"}, {1, 1, "skesk.cipher"}, {2, 1, "skesk.s2k-type"}, {3, 1, "skesk.s2k-hash"}, {12, 1, "skesk.s2k-count"}},
+	4:  {{0, 1, "ops.version"}, {1, 1, "ops.sigtype"}, {2, 1, "ops.hash"}, {3, 1, "ops.pkalgo"}, {12, 1, "ops.last"}},
+	5:  {{0, 1, "key.version"}, {5, 1, "key.algo"}, {6, 2, "key.mpi1-bits"}, {6, 1, "key.oid-len"}},
+	6:  {{0, 1, "key.version"}, {5, 1, "key.algo"}, {6, 2, "key.mpi1-bits"}, {6, 1, "key.oid-len"}},
+	7:  {{0, 1, "key.version"}, {5, 1, "key.algo"}, {6, 2, "key.mpi1-bits"}, {6, 1, "key.oid-len"}},
+	14: {{0, 1, "key.version"}, {5, 1, "key.algo"}, {6, 2, "key.mpi1-bits"}, {6, 1, "key.oid-len"}},
+	8:  {{0, 1, "compressed.algo"}},
+	9:  {{0, 1, "se.first"}},
+	11: {{0, 1, "literal.format"}, {1, 1, "literal.name-len"}},
+	17: {{0, 1, "uattr.sub-len"}, {1, 1, "uattr.sub-type"}, {0, 4, "uattr.sub-len4"}},
+	18: {{0, 1, "seipd.version"}},
+}
+
+func pokeFields(r *hx.Rand, g *hx.Gen, d []byte) []byte {
+	ps := walk(d)
+	var cand []pkt
+	for _, p := range ps {
+		partial := d[p.start]&0x40 != 0 && p.start+1 < len(d) && d[p.start+1] >= 224 && d[p.start+1] < 255
+		if _, ok := fieldTable[p.tag]; ok && p.bodyStart >= 0 && !partial {
+			cand = append(cand, p)
+		}
+	}
+	if len(cand) == 0 {
+		return d
+	}
+	p := hx.Pick(r, cand)
+	body := append([]byte(nil), d[p.bodyStart:p.end]...)
+	f := hx.Pick(r, fieldTable[p.tag])
+	if p.tag == 2 && r.Chance(1, 3) && len(body) > 6 { // the unhashed-area length and the MPI counts sit behind the hashed area
+		hl := int(body[4])<<8 | int(body[5])
+		if 6+hl+2 <= len(body) {
+			f = field{6 + hl, 2, "sig.unhashed-len"}
+			ul := int(body[6+hl])<<8 | int(body[7+hl])
+			if r.Bool() && 8+hl+ul+4 <= len(body) {
+				f = field{8 + hl + ul + 2, 2, "sig.mpi-bits"}
+			}
+		}
+	}
+	for len(body) < f.off+f.width {
+		body = append(body, 0)
+	}
+	var v int
+	switch f.width {
+	case 1:
+		v = hx.Pick(r, ext1)
+		body[f.off] = byte(v)
+	case 2:
+		v = hx.Pick(r, ext2)
+		body[f.off], body[f.off+1] = byte(v>>8), byte(v)
+	default:
+		v = hx.Pick(r, ext4)
+		binary.BigEndian.PutUint32(body[f.off:], uint32(v))
+	}
+	g.Stat("poke." + f.name)
+	// how much follows the field: enough for what it announces (in bytes, or bits for MPIs), just short, or as it was
+	need := v
+	if strings.Contains(f.name, "bits") {
+		need = (v + 7) / 8
+	}
+	if need > 70000 {
+		need = 70000
+	}
+	have := len(body) - (f.off + f.width)
+	switch r.Intn(4) {
+	case 0: // present, plus the fixed fields that follow (date, trailer, …)
+		if have < need+8 {
+			body = append(body, r.Bytes(need+8-have)...)
+		}
+	case 1: // one byte short of the announced field
+		if need > 0 {
+			body = append(body[:f.off+f.width], r.Bytes(need-1)...)
+		}
+	case 2: // exactly the announced field and nothing after it
+		body = append(body[:f.off+f.width], r.Bytes(need)...)
+	}
+	np := opaque(uint8(p.tag), body)
+	if r.Chance(1, 4) {
+		np = frame(r, g, p.tag, body)
+		if np[0]&0x40 == 0 && np[0]&3 == 3 && p.end != len(d) {
+			np = opaque(uint8(p.tag), body)
+		}
+	}
+	return append(append(append([]byte(nil), d[:p.start]...), np...), d[p.end:]...)
+}
+
+// literal data packets built directly: every name-length extreme with the name present / short / absent,
+// plain, inside a compressed packet, and after a one-pass signature
+func genLiteral(g *hx.Gen) {
+	r := g.R
+	n := hx.Pick(r, ext1)
+	body := []byte{byte(r.PickInt('b', 't', 'u', 0, 255)), byte(n)}
+	k := r.Intn(5)
+	g.Stat(fmt.Sprintf("literal.namelen=%d.kind=%d", n, k))
+	switch k {
+	case 0, 1: // complete: name, date, data
+		body = append(body, bytes.Repeat([]byte("n"), n)...)
+		body = append(body, 0, 0, 0, 0)
+		body = append(body, r.Bytes(r.Range(0, 20))...)
+	case 2: // name present, date cut
+		body = append(body, bytes.Repeat([]byte("n"), n)...)
+		body = append(body, r.Bytes(r.Range(0, 3))...)
+	case 3: // name cut
+		body = append(body, bytes.Repeat([]byte("n"), r.Intn(n+1))...)
+	}
+	d := frame(r, g, 11, body)
+	switch r.Intn(4) {
+	case 0:
+		var zb bytes.Buffer
+		w, _ := flate.NewWriter(&zb, flate.BestSpeed)
+		w.Write(d)
+		w.Close()
+		d = frame(r, g, 8, append([]byte{1}, zb.Bytes()...))
+	case 1:
+		ops := opaque(4, append(append([]byte{3, 0, 8, 1}, be64(0xA34D7E18C20C31BB)...), 1))
+		d = append(ops, d...)
+	}
+	g.Emit("msg kr=%s prompt=nil pw=- data=%s", r.PickStr("priv", "pub", "none"), hx.Hex(d))
 }
 
 func genUpper(g *hx.Gen) {
 	r := g.R
 	var s seed
-	if r.Chance(1, 6) {
+	if r.Chance(1, 4) {
 		s = seed{name: "own.sym", data: hx.Pick(r, ownMessages(r))}
 	} else {
 		s = hx.Pick(r, seeds)
@@ -1513,6 +1681,10 @@ func gen(g *hx.Gen) {
 		}
 		if r.Chance(1, 12) {
 			genKrTok(g)
+			continue
+		}
+		if r.Chance(1, 25) {
+			genLiteral(g)
 			continue
 		}
 		switch k := r.Intn(40); {
